@@ -123,9 +123,6 @@ type runOnceFileRecord struct {
 	dirNamesErr  error
 	dirNamesOnce sync.Once
 
-	size     int64
-	sizeOnce sync.Once
-
 	mode     hackpadfs.FileMode
 	modeOnce sync.Once
 
@@ -152,13 +149,11 @@ func (r *runOnceFileRecord) ReadDirNames() ([]string, error) {
 }
 
 func (r *runOnceFileRecord) Size() int64 {
-	r.sizeOnce.Do(func() {
-		r.size = r.record.Size()
-	})
-	if atomic.LoadInt64(&r.dataDone) > 0 {
+	if atomic.LoadInt64(&r.dataDone) > 0 && r.dataErr == nil && r.data != nil {
 		return int64(r.data.Len())
 	}
-	return r.size
+	// not cached: the record reports its current size, so a handle observes growth made through other handles
+	return r.record.Size()
 }
 
 func (r *runOnceFileRecord) Mode() hackpadfs.FileMode {
